@@ -1456,14 +1456,25 @@ func (u *Unit) dispatchIface(c *ast.CallExpr, se *ast.SelectorExpr, sel *types.S
 		if rv == nil {
 			continue
 		}
+		var implTy types.Type
 		named, ok := types.Unalias(rv.Type()).(*types.Named)
-		if !ok {
+		if ok {
+			if _, isStruct := named.Underlying().(*types.Struct); !isStruct {
+				continue
+			}
+			implTy = named
+		} else if pt, isPtr := types.Unalias(rv.Type()).(*types.Pointer); isPtr {
+			// pointer receiver: the dynamic type is *Named
+			pn, ok2 := types.Unalias(pt.Elem()).(*types.Named)
+			if !ok2 {
+				continue
+			}
+			named = pn
+			implTy = pt
+		} else {
 			continue
 		}
-		if _, isStruct := named.Underlying().(*types.Struct); !isStruct {
-			continue
-		}
-		ms := types.NewMethodSet(named)
+		ms := types.NewMethodSet(implTy)
 		all := true
 		for i := 0; i < it.NumMethods(); i++ {
 			if ms.Lookup(it.Method(i).Pkg(), it.Method(i).Name()) == nil {
@@ -1477,7 +1488,7 @@ func (u *Unit) dispatchIface(c *ast.CallExpr, se *ast.SelectorExpr, sel *types.S
 		if blk == nil {
 			continue
 		}
-		impls = append(impls, impl{fi, blk, named})
+		impls = append(impls, impl{fi, blk, implTy})
 	}
 	if len(impls) == 0 {
 		return nil, false
